@@ -527,3 +527,10 @@ Proof. exact gen_try_response_ok. Qed.
 Print Assumptions c10_code_new_table.
 Print Assumptions c10_code_new.
 Print Assumptions c10_code_try_response.
+
+(** The header test behind "Connection: close" and "Expect: 100-continue" ([HeaderIterExt::has], src/ext.rs: some field of that name
+    has that value, whichever position it is in) is translated from the source as well and proved equal to the model's [headers_has]. *)
+From Hoot.proofs Require Import Gen2_equiv_amended.
+Theorem c10_code_headers_has : forall l k v, gen_headers_has l k v = headers_has l k v.
+Proof. exact gen_headers_has_eq. Qed.
+Print Assumptions c10_code_headers_has.
